@@ -38,6 +38,9 @@ def gen(rng, tier, i):
     m = rng.choice([2, 4, 8])
     sims = rng.choice([1, 2, 3, 5, 7, 8, 9, 12, 16, 17, 20, 33, 64, 257])
     cycles = rng.choice([1, 1, 2, 3, 4]) if script['ffs'] else rng.choice([1, 1, 2])
+    sims_type = rng.choice(['int', 'int', 'int', 'int64', 'int32', 'narrow'])
+    if sims_type == 'narrow':      # a lane count that arrives in the narrowest NumPy integer type that holds it, close to that type's limit
+        sims_type, sims = rng.choice([('uint8', 250), ('uint8', 255), ('int8', 121), ('int8', 127), ('int16', 300), ('uint8', sims if sims < 256 else 9)])
     inj = []
     for cy in range(cycles):
         n = rng.choice([0, 1, 1, 2, 3])
@@ -48,7 +51,7 @@ def gen(rng, tier, i):
     return {'script': script, 'm': m, 'sims': sims, 'cycles': cycles, 'vals': [rng.randrange(8) for _ in range(rng.randint(3, 23))],
             'knobs': {'c_reuse': rng.random() < 0.4, 'strip_forks': rng.random() < 0.4}, 'api': rng.choice(['explicit', 'cycle', 'cycle']), 'inj': inj,
             'cb_style': rng.choice(['function', 'function', 'falsy_object', 'partial', 'method']), 'call_form': rng.choice(['keyword', 'positional']),
-            'cb_return': rng.choice(['none', 'none', 'none', 'true', 'zero', 'line', 'array']), 'sims_type': rng.choice(['int', 'int', 'int', 'int64', 'int32']),
+            'cb_return': rng.choice(['none', 'none', 'none', 'true', 'zero', 'line', 'array']), 'sims_type': sims_type,
             'raise_at': rng.choice([None, None, None, 0, 1, 3, 7])}
 
 
